@@ -61,7 +61,14 @@ func gatherLayouts(p *Program) (*layoutFacts, error) {
 	}
 	for _, k := range recordKinds {
 		if fd := findFuncDecl(lf.g, k.Encoder); fd != nil {
-			lf.enc[k.Spec] = lf.g.encoderLayout(fd)
+			enc := lf.g.encoderLayout(fd)
+			if enc != nil && enc.opcode == "" && len(enc.toks) == 0 {
+				// the encoding proper may live in an unexported helper the public method delegates to
+				if d := lf.g.delegateEncoder(fd, 2); d != nil {
+					enc = d
+				}
+			}
+			lf.enc[k.Spec] = enc
 		}
 		if fd := findFuncDecl(lf.g, k.Decoder); fd != nil {
 			lf.dec[k.Spec] = lf.g.decoderLayout(fd)
@@ -143,6 +150,38 @@ func (lf *layoutFacts) checkDecVsSpec(p *Program, r *Result, rule string) {
 			}
 		}
 		dec := lf.g.decoderLayout(fd)
+		if len(dec.toks) < 7 {
+			// the header decode may have been moved into an unexported helper of loadChunk
+			best := dec
+			var look func(d *ast.FuncDecl, depth int)
+			look = func(d *ast.FuncDecl, depth int) {
+				if depth <= 0 || d.Body == nil {
+					return
+				}
+				ast.Inspect(d.Body, func(n ast.Node) bool {
+					ce, ok := n.(*ast.CallExpr)
+					if !ok {
+						return true
+					}
+					fn := lf.g.calleeOf(ce)
+					if fn == nil || fn.Exported() || strings.HasPrefix(fn.Name(), "get") {
+						return true
+					}
+					hd := lf.g.decls[fn]
+					if hd == nil || hd.Body == nil || hd == d {
+						return true
+					}
+					if hdec := lf.g.decoderLayout(hd); len(hdec.toks) > len(best.toks) {
+						best = hdec
+						fd = hd
+					}
+					look(hd, depth-1)
+					return true
+				})
+			}
+			look(fd, 2)
+			dec = best
+		}
 		sp := lf.spec["Chunk"]
 		var kinds, skinds []string
 		for _, t := range dec.toks {
@@ -312,4 +351,43 @@ func (lf *layoutFacts) absoluteHeaderReads(fd *ast.FuncDecl, skinds []string) (d
 		}
 	}
 	return "fields read at constant offsets, each at a specified field boundary with the specified width: " + strings.Join(parts, " "), true, true
+}
+
+// delegateEncoder: the first unexported package function called from fd whose own layout carries an opcode.
+func (g *goLayouts) delegateEncoder(fd *ast.FuncDecl, depth int) *encResult {
+	if depth <= 0 || fd.Body == nil {
+		return nil
+	}
+	var found *encResult
+	ast.Inspect(fd.Body, func(n ast.Node) bool {
+		if found != nil {
+			return false
+		}
+		ce, ok := n.(*ast.CallExpr)
+		if !ok {
+			return true
+		}
+		fn := g.calleeOf(ce)
+		if fn == nil || fn.Exported() {
+			return true
+		}
+		hd := g.decls[fn]
+		if hd == nil || hd.Body == nil || hd == fd {
+			return true
+		}
+		if strings.HasPrefix(fn.Name(), "put") || fn.Name() == "ensureSized" || fn.Name() == "writeRecord" {
+			return true
+		}
+		enc := g.encoderLayout(hd)
+		if enc != nil && enc.opcode != "" && len(enc.toks) > 0 {
+			found = enc
+			return false
+		}
+		if d := g.delegateEncoder(hd, depth-1); d != nil {
+			found = d
+			return false
+		}
+		return true
+	})
+	return found
 }
